@@ -123,12 +123,21 @@ func (s *httpSim) record(canon, kind, raw string) int {
 }
 
 func (s *httpSim) fault(n int, w http.ResponseWriter) bool {
-	if n != s.scn.FaultAt {
+	if s.scn.FaultAt < 0 {
 		return false
 	}
 	if s.scn.FaultKind == "close" {
-		s.srv.CloseClientConnections()
-		return true
+		// net/http retries an idempotent request whose connection was closed before any answer;
+		// the device therefore stays unreachable from the fault on (the retries show up as
+		// repeated requests in the transcript and are collapsed by the harness)
+		if n >= s.scn.FaultAt {
+			s.srv.CloseClientConnections()
+			return true
+		}
+		return false
+	}
+	if n != s.scn.FaultAt {
+		return false
 	}
 	w.WriteHeader(500)
 	w.Write([]byte("device not ready\n"))
